@@ -54,6 +54,9 @@ func zzT(nested bool) *zzX {
 // text between elements.
 func zzDoc(K int) *zzX {
 	r := &zzX{name: "R"}
+	if zz.Param("RATTR", 0) == 1 && zz.NondetBool("rootattr") {
+		r.attrs = append(r.attrs, [2]interface{}{"id", []byte("7")})
+	}
 	n := 1 + zz.NondetChoice("nkids", K)
 	for i := 0; i < n; i++ {
 		switch zz.NondetChoice("kid", 3) {
